@@ -269,7 +269,6 @@ def unstack_pytree[T](tree: T, *, axis: int = 0) -> Sequence[T]:
 
 
 class Serializable(eqx.Module):
-    @callback_wrapper
     def serialize(
         self,
         path: str | Path,
@@ -282,13 +281,21 @@ class Serializable(eqx.Module):
             path: The path to serialize to.
             no_suffix: If True, do not append the ".eqx" suffix
         """
-        path = Path(path)
-        if not path.parent.exists():
-            path.parent.mkdir(parents=True, exist_ok=True)
-        if path.suffix != ".eqx" and not no_suffix:
-            path = path.with_suffix(".eqx")
+        # Only arrays go through the callback: `jax.debug.callback` would turn
+        # Python scalar leaves (e.g. an epsilon) into default-precision arrays.
+        arrays, other = eqx.partition(self, eqx.is_array)
 
-        eqx.tree_serialise_leaves(path, self)
+        @callback_wrapper
+        def write(arrays) -> None:
+            file = Path(path)
+            if not file.parent.exists():
+                file.parent.mkdir(parents=True, exist_ok=True)
+            if file.suffix != ".eqx" and not no_suffix:
+                file = file.with_suffix(".eqx")
+
+            eqx.tree_serialise_leaves(file, eqx.combine(arrays, other))
+
+        write(arrays)
 
     @classmethod
     def deserialize[**Params, ClassType](
